@@ -6,17 +6,20 @@
      loader_spec   — the observed outputs, with a cached miss projected to a miss, are the outputs of the
                      abstract write-once specification (Model/LoaderSpec.v). *)
 From Coq Require Import ZArith NArith Bool List.
-From PcoreV Require Import Model.Base Model.Loader Model.LoaderSpec.
+From PcoreV Require Import Model.Base Model.Loader Model.LoaderSpec Model.LoaderAdd.
 Import ListNotations.
 
-Definition loader_check (cfg : config) (c : list op * list out) : bool :=
-  forallb op_wf (fst c) && list_eqb out_eqb (outs cfg (fst c)) (snd c).
+(* A history is a list of `xop`: the operations of Model/Loader.v and px.AddTypes with object types and type
+   sets (Model/LoaderAdd.v); the loaders are numbered as in the model (the type-set loaders that the resolution
+   of a type set creates count). *)
+Definition loader_check (cfg : config) (c : list xop * list xout) : bool :=
+  forallb (xop_wf cfg) (fst c) && list_eqb xout_eqb (xouts cfg (fst c)) (snd c).
 
-Definition loader_mismatches (cfg : config) (cs : list (list op * list out)) : list N :=
+Definition loader_mismatches (cfg : config) (cs : list (list xop * list xout)) : list N :=
   if cfg_wf cfg then failing (loader_check cfg) cs else failing (fun _ => false) cs.
 
-Definition loader_spec_check (cfg : config) (c : list op * list out) : bool :=
-  list_eqb out_eqb (spec_outs cfg (fst c)) (map project (snd c)).
+Definition loader_spec_check (cfg : config) (c : list xop * list xout) : bool :=
+  list_eqb xout_eqb (spec_xouts cfg (fst c)) (map xproject (snd c)).
 
-Definition loader_spec_violations (cfg : config) (cs : list (list op * list out)) : list N :=
+Definition loader_spec_violations (cfg : config) (cs : list (list xop * list xout)) : list N :=
   failing (loader_spec_check cfg) cs.
